@@ -84,6 +84,13 @@ def convertGenerator (conv : Input → Outcome)
   if gs.isEmpty && gen.isNone then ([], restore w1)
   else (gs.map (generate conv) ++ (gen.getD []).map (generate conv), restore w1)
 
+/-- `convert_generator(...)` whose result is never advanced (dropped, closed before the first `next()`, sliced to nothing): a
+    generator function runs none of its body before the first `next()`, so nothing at all happens – in particular the root
+    logger is not switched off. -/
+def convertGeneratorUnstarted (_conv : Input → Outcome)
+    (_single : Option Input) (_list _fileLines _gen : Option (List Input)) (_verbose : Verbose) (w : World) : List Pair × World :=
+  ([], w)
+
 /-- `Glycan.get_smiles` gate (after the repair of D2): the cached/assembled string is withheld only when the caller
     asked for a complete conversion and the tree could not be realised completely. -/
 def gate (treeOnly full treeFull : Bool) (assembled : List Char) : List Char :=
